@@ -1,7 +1,7 @@
 ENGINES = [
- {"name": "pyvc", "path": "/verif/pyvc", "serves_properties": ["C01", "C03"],
+ {"name": "pyvc", "path": "/verif/pyvc", "serves_properties": ["C01", "C02", "C03", "C15", "C19"],
   "kind_free_text": "own verification-condition generator: symbolic execution of the real function ASTs (re-read from /repo every run) against sidecar contracts (/verif/contracts), obligations discharged by z3 5.1 (cvc5 on unknown), validated finite-shape counter-models for refutation"},
- {"name": "bounded", "path": "/verif/bounded", "serves_properties": ["C01","C02","C03","C04","C05","C09","C10","C14","C16","C19"],
+ {"name": "bounded", "path": "/verif/bounded", "serves_properties": ["C%02d" % i for i in range(1, 21)],
   "kind_free_text": "bounded stand-ins: the property's contract evaluated at run time on the real code over enumerated small scopes (deal/icontract/plain wrappers), never counted as proved"},
 ]
 NOTES = ("Contract-based deductive verification; see DESIGN.md. Exit codes: 0 held, 1 violation, 2 undecided, 3 checker error. "
@@ -21,7 +21,21 @@ CHECKS = [
   "note": "Assumes: typing annotations of inputs, dict representation invariant, floats as reals, rate laws pure. Mutators with loops/comprehensions not yet under contract are listed in the evidence (mutators_without_verified_contract) and covered by the bounded part only; cache freshness relies on the syntactic obligation that only _create_cache stores a non-None cache.",
   "technique": "contract-based deductive verification (pyvc VC generation from the real AST + z3) + bounded contract check"},
 ]
-for _p, _ref in [("C02","5/C02"),("C04","5/C04"),("C05","5/C05"),("C09","5/C09"),("C10","5/C10"),("C14","5/C14"),("C16","5/C16"),("C19","5/C19")]:
-    CHECKS.append({"id": _p, "category": "exploration", "design_ref": _ref, "text": _BN, "note": "Run-time contract on the real code; oracle independent of the code under test (closed forms / recomputation from the property statement); tolerances stated in the evidence.", "technique": _B, "engine": "bounded"})
+CHECKS += [
+ {"id": "C02", "category": "proof", "design_ref": "5/C02",
+  "text": "_check_if_is_sortable is proved for all graphs: it raises MissingDependenciesError exactly when some component requires a name nobody provides, the error lists exactly those names per component, and nothing is modified (ghost set fold Provided, loop invariants). _sort_dependencies (order validity, cycles, termination, cap adequacy) is covered by the bounded part: all graphs with <= 3 components x all declaration orders on the real functions, plus model-level order independence.",
+  "note": "Proved part: _check_if_is_sortable only. _sort_dependencies has no verified contract yet (queue loop invariant not built): bounded only. Assumes sorted() returns the members of its argument, names pairwise distinct.",
+  "technique": "contract-based deductive verification (pyvc + z3) for the completeness check + bounded contract check for the sort"},
+ {"id": "C15", "category": "proof", "design_ref": "5/C15",
+  "text": "Scipy.integrate_to_steady_state is proved (array objects vs. contents in the heap model, scipy's reused state buffer modelled as the library does it) to report success only if the solver completed the step and the reached state differs from the state reached by the previous call, compared as values, by less than the tolerance in the chosen norm; otherwise NoSteadyState. Numerical adequacy of the criterion is assumed (A-C15) and exercised by the bounded part on enumerated linear networks and non-steady networks.",
+  "note": "Assumes the library model of scipy.integrate.ode (pyvc/lib_arr.py), uninterpreted vector operations with norm(a-a)=0, A-C15. A change of step_size/max_steps constants alone is visible only to the bounded part. Plumbing (Simulator/scan) is bounded only.",
+  "technique": "contract-based deductive verification (pyvc + z3) + bounded contract check"},
+ {"id": "C19", "category": "proof", "design_ref": "5/C19",
+  "text": "_pickle_name, _pickle_save, _pickle_load, _load_or_run are proved over an abstract file system: functional contracts (result = fn(v), loaded value = expected value) and the crash invariant 'every existing result file is complete and holds its key's value' as an obligation after every statement and inside the model of open/dump/close, i.e. for a kill at any instant incl. mid-write. Bounded: real kills at byte offsets, partial caches, key sets, sequential/parallel on the real code.",
+  "note": "Assumes the file-system/pickle model of pyvc/lib_fs.py (atomic Path.replace, partial file until close), default Cache functions, temp name not a result name, distinct keys have distinct names. parallelise (pool, ordering) is bounded only.",
+  "technique": "contract-based deductive verification (pyvc + z3) incl. crash invariant + bounded contract check"},
+]
+for _p, _ref in [("C04","5/C04"),("C05","5/C05"),("C06","5/C06"),("C07","5/C07"),("C08","5/C08"),("C09","5/C09"),("C10","5/C10"),("C11","5/C11"),("C12","5/C12"),("C13","5/C13"),("C14","5/C14"),("C16","5/C16"),("C17","5/C17"),("C18","5/C18"),("C20","5/C20")]:
+    CHECKS.append({"id": _p, "category": "exploration", "design_ref": _ref, "text": _BN, "note": "Run-time contract on the real code; oracle independent of the code under test (closed forms / recomputation from the property statement); tolerances, bounds and exclusions stated in the evidence and in proposed/" + _p + "/NOTES.md.", "technique": _B, "engine": "bounded"})
 CHECKS.sort(key=lambda c: c["id"])
 NOT_APPLICABLE = [{"property_id": f"C{i:02d}", "reason": _PENDING} for i in range(1, 21) if f"C{i:02d}" not in {c["id"] for c in CHECKS}]
